@@ -168,9 +168,64 @@ def replay_process_request(model):
                 clause="process_request touches only buckets[client_ip]; refusal is 44 + retry hint only when exhausted")
 
 
+def bank(seed):
+    """Bounded stand-in: scripted arrival histories under a virtual clock, with clean-up passes,
+    compared step by step with an exact-arithmetic token bucket; plus the window bound."""
+    import random
+    from fractions import Fraction as F
+    rnd = random.Random(seed)
+    configs = [(10, 1.0), (1, 0.0), (3, 0.001), (100, 0.0625), (5, 0.01), (2, 0.5)]
+    for cap, rate in configs:
+        for trial in range(6):
+            clock = Clock()
+            mw.time.monotonic = clock
+            rl = mw.RateLimiter(mw.RateLimitConfig(capacity=cap, refill_rate=rate, retry_after=7))
+            model = {}   # ip -> (tokens, last) exact
+            admitted = {}  # ip -> list of admission times
+            ips = ["198.51.100.1", "198.51.100.2"]
+            t_next_cleanup = clock.t + 300
+            for step in range(60):
+                gap = rnd.choice([0, 0, 0.5, 1, 30, 299, 301, 650, 900])
+                target = clock.t + gap
+                while t_next_cleanup <= target:
+                    clock.t = t_next_cleanup
+                    one_cleanup_pass(rl)
+                    t_next_cleanup += 300
+                clock.t = target
+                ip = rnd.choice(ips)
+                burst = rnd.choice([1, 1, 2, cap + 2])
+                for _ in range(burst):
+                    tok, last = model.get(ip, (F(cap), F(clock.t)))
+                    level = min(F(cap), tok + (F(clock.t) - last) * F(rate))
+                    want = level >= 1
+                    model[ip] = (level - (1 if want else 0), F(clock.t))
+                    other = [(k, (b.tokens, b.last_update)) for k, b in rl.buckets.items() if k != ip]
+                    allow, resp = asyncio.run(rl.process_request("gemini://x/", ip, None))
+                    if [(k, (b.tokens, b.last_update)) for k, b in rl.buckets.items() if k != ip] != other:
+                        return dict(confirmed=True, input=dict(capacity=cap, refill_rate=rate, step=step, ip=ip), observed="bucket of another address changed")
+                    if allow != want:
+                        return dict(confirmed=True, input=dict(capacity=cap, refill_rate=rate, step=step, time=clock.t - 1000.0, ip=ip),
+                                    observed=dict(admitted=allow, exact_model_level=float(level)),
+                                    clause="admitted exactly when the exact token bucket (no clean-up) has a token: clean-up never adds allowance, refusals only when exhausted")
+                    if not allow and not (isinstance(resp, str) and resp.startswith("44 ") and "7" in resp and resp.endswith("\r\n")):
+                        return dict(confirmed=True, input=dict(capacity=cap, refill_rate=rate), observed=dict(refusal=resp), clause="refusal is 44 with the retry hint")
+                    if allow:
+                        admitted.setdefault(ip, []).append(clock.t)
+            for ip, times in admitted.items():
+                for i in range(len(times)):
+                    for j in range(i, len(times)):
+                        if (j - i + 1) > cap + rate * (times[j] - times[i]) + 1e-6:
+                            return dict(confirmed=True, input=dict(capacity=cap, refill_rate=rate, ip=ip),
+                                        observed=dict(admitted=j - i + 1, window=times[j] - times[i], bound=cap + rate * (times[j] - times[i])),
+                                        clause="admitted in any window of length T <= capacity + refill_rate*T")
+    return dict(confirmed=False, reason="no history in the bank deviates from the exact model", histories=len(configs) * 6)
+
+
 def main():
     p = load()
     ob = p["obligation"]
+    if ob == "__bounded__":
+        done(**bank(int(p.get("seed", 0))))
     model = p.get("model") or {}
     if "eviction" in ob:
         done(**replay_eviction(model))
